@@ -83,8 +83,6 @@ Theorem C10_requirement_eq_equivalence : (forall a, ReqModel.req_eq a a = true) 
 Proof. exact C08.C08_eq_equivalence. Qed.
 Print Assumptions C10_requirement_eq_equivalence.
 Theorem C10_requirement_hash {H : Type} (hash : ReqModel.rq_key -> H) a b : ReqModel.req_eq a b = true -> hash (ReqModel.req_key a) = hash (ReqModel.req_key b).
-
-Theorem C10_requirement_hash {H : Type} (hash : ReqEqP.rq_key -> H) a b : ReqModel.req_eq a b = true -> hash (ReqEqP.req_key a) = hash (ReqEqP.req_key b).
 Proof. exact (C08.C08_hash_respects_eq hash a b). Qed.
 Print Assumptions C10_requirement_hash.
 (* Tag: equality is equality of the three lower-cased fields (case-insensitive), for any stored hash function *)
@@ -93,8 +91,6 @@ Theorem C10_tag_eq_is_field_eq h i a p i' a' p' :
   VMeaning.py_lower i = VMeaning.py_lower i' /\ VMeaning.py_lower a = VMeaning.py_lower a' /\ VMeaning.py_lower p = VMeaning.py_lower p'.
 Proof. exact (C14.C14_tag_case_insensitive h i a p i' a' p'). Qed.
 Print Assumptions C10_tag_eq_is_field_eq.
-<<<<<<< HEAD
-=======
 
 (* ---------------- SpecifierSet ---------------- *)
 (* Model SetsModel: __eq__ = equality of the member frozensets (set_eqb), __hash__ = hash(self._specs).  fs_ok = "no two equal members",
@@ -134,4 +130,3 @@ Theorem C10_equal_text_sets_match_alike a b p A B : SetsModel.SpecifierSet a p =
   (forall arg texts, SetsModel.set_filter A arg texts = SetsModel.set_filter B arg texts) /\ SetsModel.set_pre A = SetsModel.set_pre B.
 Proof. exact (SetsEqual.equal_text_sets_behave_alike a b p A B). Qed.
 Print Assumptions C10_equal_text_sets_match_alike.
->>>>>>> 47387e70e6eafc025534b1f84c8dd6a9a5385115
